@@ -5,7 +5,7 @@ CONSTANTS
   QualSets = {{}, {"const"}}
   ArrLens = {0, 2, 3}
   Depth = 2
-  P1Names = {"int", "uint", "eu", "cint", "pint", "pcint", "a2int", "fvi"}
+  P1Names = {"int", "uint", "eu", "cint", "pint", "pcint", "a2int", "a2cint", "fvi"}
   P2Names = {"int", "pint"}
   FnRetNames = {"int", "uint", "void", "S1"}
   Devs = {"CondSameTypeNoConversion", "CompositeIsFirst", "UacKeepsWideEnum", "SizeofSeesBitfield", "ConvertKeepsCompatible", "ArrayQualOnArrayType", "DerefDecayedArrayDropsQual"}
